@@ -130,6 +130,9 @@ func c09EvalCase(cs c09Case) (fs []F) {
 func c09Run(c *core.Ctx) {
 	var evals, distinct atomic.Int64
 	inst, exh := 0, 0
+	// first use of every instantiation: sequentially, in a fixed order, before anything else converts
+	fixedToFloat := func(s, d int) bool { return dyn.Types[s].Kind != dyn.Float && dyn.Types[d].Kind == dyn.Float }
+	digests := ctxDigests(fixedToFloat)
 	for s := 0; s < dyn.NB; s++ {
 		for _, d := range []int{dyn.Float32, dyn.Float64} {
 			ts, td := dyn.Types[s], dyn.Types[d]
@@ -282,7 +285,7 @@ func c09Run(c *core.Ctx) {
 		ts := dyn.Types[s]
 		return c09Point(ts.Bits, isF32(d), rawToAmp(ts.Kind, ts.Bits, in), math.Float64frombits(out))
 	}
-	digests := ctxRun(c, "C09", c09Judge, false, func(s, d int) bool { return dyn.Types[s].Kind != dyn.Float && dyn.Types[d].Kind == dyn.Float })
+	ctxPasses(c, "C09", c09Judge, false, fixedToFloat)
 	c.Set("ctx_digests", digests)
 	c.Set("evaluations", evals.Load()+c.CtxEvals())
 	c.ReverseOrderPass("mc-shim")
